@@ -455,6 +455,43 @@ func main() {
 			c.Close()
 		}
 	}
+	// ---- whatever BODYSTRUCTURE announces can be fetched: for messages that carry another message (forwarded as attachment,
+	// in the encodings a message/rfc822 part may have), every leaf path the structure shows — also below an embedded message,
+	// if the structure describes one — returns a body, not NIL ----
+	if o.Replay == "" {
+		c := w.Login("fwd@example.com")
+		inner := "From: inner@example.org\r\nTo: x@example.com\r\nSubject: inner\r\nMIME-Version: 1.0\r\nContent-Type: multipart/alternative; boundary=in\r\n\r\n--in\r\nContent-Type: text/plain\r\n\r\ninner text part\r\n--in\r\nContent-Type: text/html\r\n\r\n<p>inner html part</p>\r\n--in--\r\n"
+		for k, cte := range []string{"", "7bit", "8bit", "binary"} {
+			hdr := "Content-Type: message/rfc822\r\n"
+			if cte != "" {
+				hdr += "Content-Transfer-Encoding: " + cte + "\r\n"
+			}
+			c.Append("INBOX", "", fmt.Sprintf("From: a@example.org\r\nTo: fwd@example.com\r\nSubject: forwarded %d\r\nMIME-Version: 1.0\r\nContent-Type: multipart/mixed; boundary=out\r\n\r\n--out\r\nContent-Type: text/plain\r\n\r\nsee the forwarded message\r\n--out\r\n%s\r\n%s--out--\r\n", k, hdr, inner))
+		}
+		c.Cmd("SELECT INBOX")
+		for seq := 1; seq <= 4; seq++ {
+			r := c.Cmd(fmt.Sprintf("FETCH %d (BODYSTRUCTURE)", seq))
+			parsed, err := hx.RunModel(o.Driver, []string{"r.parse " + hx.H(r.Raw)})
+			if err != nil || len(parsed) != 1 {
+				break
+			}
+			its := sx.FetchItems(parsed[0])
+			if len(its) != 1 || its[0]["BODYSTRUCTURE"] == nil {
+				rep.Violate("impl-violation", "attribute agreement (Props.C14)", fmt.Sprintf("forwarded message %d: FETCH (BODYSTRUCTURE) is not one well-formed FETCH line: %q", seq, clip(r.Raw, 200)), []string{"forwarded"})
+				continue
+			}
+			for _, lp := range announcedLeaves(its[0]["BODYSTRUCTURE"], "") {
+				rep.Case(fmt.Sprintf("forwarded|%d|%s", seq, lp), true)
+				f := c.Cmd(fmt.Sprintf("FETCH %d (BODY.PEEK[%s])", seq, lp))
+				raw := strings.Join(f.Untagged, "\n")
+				if !f.OK() || !strings.Contains(raw, "{") {
+					rep.Violate("impl-violation", "attribute agreement (Props.C14: every leaf at path p of BODYSTRUCTURE is returned by BODY[p])", fmt.Sprintf("message %d (a forwarded message as message/rfc822): BODYSTRUCTURE shows a leaf at %s, and FETCH BODY.PEEK[%s] answers %q %q", seq, lp, lp, clip(raw, 120), f.Tagged), []string{"forwarded"})
+				}
+				rep.Hit("forwarded:leaf-fetched")
+			}
+		}
+		c.Close()
+	}
 	// ---- ENVELOPE address lists over generated address fields ----
 	if o.Replay == "" {
 		ne := 150
@@ -643,4 +680,40 @@ func tail(s string, n int) string {
 		return s[len(s)-n:]
 	}
 	return s
+}
+
+// announcedLeaves: the section paths of the leaves a BODYSTRUCTURE shows, descending into the body structure of an embedded
+// message where a message/rfc822 part carries one (RFC 3501: envelope, body, lines after the basic fields)
+func announcedLeaves(n *sx.V, path string) []string {
+	if n == nil || n.Kind != "list" || len(n.L) == 0 {
+		return nil
+	}
+	join := func(i int) string {
+		if path == "" {
+			return fmt.Sprint(i)
+		}
+		return fmt.Sprintf("%s.%d", path, i)
+	}
+	if n.L[0].Kind == "list" {
+		var out []string
+		for i, c := range n.L {
+			if c.Kind != "list" {
+				break
+			}
+			out = append(out, announcedLeaves(c, join(i+1))...)
+		}
+		return out
+	}
+	self := path
+	if self == "" {
+		self = "1"
+	}
+	if len(n.L) >= 10 && strings.EqualFold(n.L[0].S, "message") && strings.EqualFold(n.L[1].S, "rfc822") && n.L[8].Kind == "list" && len(n.L[8].L) > 0 {
+		emb := n.L[8]
+		if emb.L[0].Kind == "list" {
+			return announcedLeaves(emb, self)
+		}
+		return announcedLeaves(emb, self+".1")
+	}
+	return []string{self}
 }
